@@ -223,4 +223,7 @@ func checkC03(c *runCtx) {
 	for _, s := range specs {
 		vtSearch(c, p, vtSpec{Name: s.name, Model: s.model, Cfg: s.cfg, Deadline: dl})
 	}
+	if os.Getenv("VERIF_ONLY") == "" {
+		checkRenominateRace(c, dl)
+	}
 }
